@@ -398,7 +398,7 @@ static void do_G (char *line) {
   }
   /* C16_POISON=1: never-reuse allocator (deterministic dangling reads; today the generator itself
      trips over it: gen_setup_lrefs reads the deleted label of an lref whose jmpi became unreachable,
-     see corpus/c16_lref_unreachable_label.mir) */
+     fixed since by fixes/C03-4.patch) */
   ctx = getenv ("C16_POISON") != NULL ? MIR_init2 (&pz_alloc, NULL) : MIR_init ();
   MIR_set_error_func (ctx, prog_err_func);
   MIR_gen_init (ctx);
